@@ -129,6 +129,8 @@ def pop_info(tree, cfg, sel):
     sidecars = []
     for ext in eval(cfg.get("GopherEntry", "eaexts")):
         q = p + (b"/" if kind == "d" else b"") + ext.encode()
+        if not os.path.isfile(q):
+            continue         # absent, a directory, a FIFO (an open would wait for a writer)
         try:
             with open(q, "r", errors="surrogateescape") as f:
                 sidecars.append((ext, f.readlines(20480)))
